@@ -131,7 +131,9 @@ func corruptBody(F *core.Tape, body string) (string, string, string) {
 			return body, "", ""
 		}
 		if kind == "bad-typename" {
-			m["__typename"] = "Bogus"
+			// an unknown name, or the name of an abstract type (never a possible runtime type), or
+			// another object type of the schema
+			m["__typename"] = []string{"Bogus", "Node", "AnyE", "Query"}[F.Intn(4)]
 		} else {
 			delete(m, "__typename")
 		}
